@@ -63,6 +63,9 @@ type Solver struct {
 	Restarts int
 	ndefs    int
 	mu       sync.Mutex
+	OneShot  bool
+	oneshot  *exec.Cmd
+	Cancel   chan struct{} // closed by the caller to abandon the running one-shot query
 }
 
 func NewSolver(backend string) (*Solver, error) {
@@ -70,10 +73,7 @@ func NewSolver(backend string) (*Solver, error) {
 	if !ok {
 		return nil, fmt.Errorf("unknown backend %s", backend)
 	}
-	s := &Solver{B: b}
-	if err := s.start(); err != nil {
-		return nil, err
-	}
+	s := &Solver{B: b, OneShot: true}
 	return s, nil
 }
 
@@ -142,13 +142,19 @@ func (s *Solver) Close() {
 func (s *Solver) Interrupt() {
 	s.mu.Lock()
 	defer s.mu.Unlock()
-	if s.cmd != nil && s.cmd.Process != nil {
+	if s.cmd != nil && s.cmd.Process != nil && !s.OneShot {
 		s.cmd.Process.Kill()
+	}
+	if s.oneshot != nil && s.oneshot.Process != nil {
+		s.oneshot.Process.Kill()
 	}
 }
 
 // Reset forgets all definitions (new Ctx or too many definitions).
 func (s *Solver) Reset() {
+	if s.OneShot {
+		return
+	}
 	s.Close()
 	if err := s.start(); err != nil {
 		panic(err)
@@ -176,10 +182,157 @@ func (s *Solver) define(roots []*Node) []*Node {
 	return vars
 }
 
+// checkOneShot runs a fresh solver process on a self-contained script (tactic-based solving in
+// z3 is only used outside incremental mode, which is worth far more than process start-up).
+func (s *Solver) checkOneShot(assertions []*Node, modelVars []*Node, timeoutMs int) (Result, map[string]uint64, error) {
+	var defs, vars []*Node
+	done := map[int]bool{}
+	roots := append(append([]*Node{}, assertions...), modelVars...)
+	TopoFrom(roots, done, &defs, &vars)
+	var sb strings.Builder
+	sb.WriteString("(set-option :print-success false)\n")
+	if strings.HasPrefix(s.B.Name, "z3") {
+		sb.WriteString("(set-option :produce-models true)\n")
+		if o := s.B.TimeoutOpt(timeoutMs); o != "" {
+			sb.WriteString(o + "\n")
+		}
+	}
+	sb.WriteString("(set-logic QF_BV)\n")
+	for _, v := range vars {
+		fmt.Fprintf(&sb, "(declare-const %s %s)\n", VarSym(v.Name), SortStr(v.W))
+	}
+	for _, d := range defs {
+		fmt.Fprintf(&sb, "(define-fun n%d () %s %s)\n", d.ID, SortStr(d.W), Body(d))
+	}
+	for _, a := range assertions {
+		sb.WriteString("(assert " + Ref(a) + ")\n")
+	}
+	sb.WriteString("(check-sat)\n")
+	for i := 0; i < len(modelVars); i += 200 {
+		j := i + 200
+		if j > len(modelVars) {
+			j = len(modelVars)
+		}
+		sb.WriteString("(get-value (")
+		for _, v := range modelVars[i:j] {
+			sb.WriteString(Ref(v))
+			sb.WriteByte(' ')
+		}
+		sb.WriteString("))\n")
+	}
+	sb.WriteString("(exit)\n")
+	argv := append([]string{}, s.B.Argv[1:]...)
+	// drop flags of the interactive mode
+	var args []string
+	for _, a := range argv {
+		if a == "--incremental" {
+			continue
+		}
+		args = append(args, a)
+	}
+	if s.B.Name != "z3" && s.B.Name != "z3-new" {
+		args = append(args, fmt.Sprintf("--tlimit=%d", timeoutMs))
+	}
+	cmd := exec.Command(s.B.Argv[0], args...)
+	cmd.Stdin = strings.NewReader(sb.String())
+	if s.Log != nil {
+		io.WriteString(s.Log, sb.String())
+	}
+	var out strings.Builder
+	cmd.Stdout = &out
+	s.mu.Lock()
+	if err := cmd.Start(); err != nil {
+		s.mu.Unlock()
+		return Unknown, nil, err
+	}
+	s.oneshot = cmd
+	s.mu.Unlock()
+	doneCh := make(chan error, 1)
+	go func() { doneCh <- cmd.Wait() }()
+	select {
+	case <-doneCh:
+	case <-s.Cancel:
+		cmd.Process.Kill()
+		<-doneCh
+		return Unknown, nil, nil
+	case <-time.After(time.Duration(timeoutMs+5000) * time.Millisecond):
+		cmd.Process.Kill()
+		<-doneCh
+	}
+	s.mu.Lock()
+	s.oneshot = nil
+	s.mu.Unlock()
+	txt := out.String()
+	lines := strings.SplitN(strings.TrimLeft(txt, " \n"), "\n", 2)
+	if len(lines) == 0 {
+		return Unknown, nil, nil
+	}
+	first := strings.TrimSpace(lines[0])
+	switch first {
+	case "unsat":
+		return Unsat, nil, nil
+	case "sat":
+		model := map[string]uint64{}
+		if len(modelVars) > 0 && len(lines) > 1 {
+			rest := lines[1]
+			// consecutive get-value answers: parse each balanced s-expression
+			for _, sx := range splitSexps(rest) {
+				if strings.HasPrefix(strings.TrimSpace(sx), "(error") {
+					return Unknown, nil, fmt.Errorf("solver %s: %s", s.B.Name, sx)
+				}
+				if err := parseValues(sx, model); err != nil {
+					return Unknown, nil, err
+				}
+			}
+		}
+		return Sat, model, nil
+	}
+	if strings.HasPrefix(first, "(error") {
+		return Unknown, nil, fmt.Errorf("solver %s: %s", s.B.Name, first)
+	}
+	return Unknown, nil, nil
+}
+
+func splitSexps(txt string) []string {
+	var out []string
+	depth := 0
+	start := -1
+	inBar := false
+	for i, ch := range txt {
+		if ch == '|' {
+			inBar = !inBar
+		}
+		if inBar {
+			continue
+		}
+		if ch == '(' {
+			if depth == 0 {
+				start = i
+			}
+			depth++
+		} else if ch == ')' {
+			depth--
+			if depth == 0 && start >= 0 {
+				out = append(out, txt[start:i+1])
+				start = -1
+			}
+		}
+	}
+	return out
+}
+
 // Check decides the conjunction of assertions. modelVars: variables whose values to fetch when sat.
 func (s *Solver) Check(assertions []*Node, modelVars []*Node, timeoutMs int) (Result, map[string]uint64, error) {
 	t0 := time.Now()
 	defer func() { s.Seconds += time.Since(t0).Seconds(); s.Queries++ }()
+	if s.OneShot {
+		for _, a := range assertions {
+			if a.IsFalse() {
+				return Unsat, nil, nil
+			}
+		}
+		return s.checkOneShot(assertions, modelVars, timeoutMs)
+	}
 	if s.ndefs > 3000000 {
 		s.Reset()
 	}
